@@ -516,12 +516,65 @@ async def run_foreign(beh, out):
     return bad
 
 
+class BackgroundRun:
+    """another trio.run, alive in a thread of its own and started BEFORE the run under test: a foreign thread's
+    token must be matched to its own run, not to whichever run comes first"""
+
+    def __init__(self):
+        self.ready = threading.Event()
+        self.thread = threading.Thread(target=lambda: trio.run(self._main), daemon=True)
+        self.thread.start()
+        if not self.ready.wait(10):
+            raise GroundTruth("background run did not start")
+
+    async def _main(self):
+        self.token = trio.lowlevel.current_trio_token()
+        self.scope = trio.CancelScope()
+        self.ready.set()
+        with self.scope:
+            await trio.sleep_forever()
+
+    def stop(self):
+        self.token.run_sync_soon(self.scope.cancel)
+        self.thread.join(10)
+
+
+def in_fresh_thread(fn):
+    box = {}
+
+    def body():
+        try:
+            box["value"] = fn()
+        except BaseException as ex:
+            box["error"] = ex
+    th = threading.Thread(target=body, daemon=True)
+    th.start()
+    th.join(120)
+    if th.is_alive():
+        raise GroundTruth("run in a fresh thread did not finish")
+    if "error" in box:
+        raise box["error"]
+    return box["value"]
+
+
 def main_foreign(data, out):
     out["foreign_n"] = 0
     out["foreign"] = []
-    for bi, beh in enumerate(data.get("foreign", [])):
+    out["foreign_two_runs"] = 0
+    behs = data.get("foreign", [])
+    background = None
+    for bi, beh in enumerate(behs):
+        # the second half of the behaviours runs while another Trio run is alive in another thread
+        if background is None and bi >= len(behs) // 2:
+            background = BackgroundRun()
+        if background is not None:
+            out["foreign_two_runs"] += 1
         try:
-            bad = trio.run(run_foreign, beh, out)
+            if background is not None:
+                # in a thread younger than the background run's: this run's context is then not the first one
+                bad = in_fresh_thread(lambda: trio.run(run_foreign, beh, out))
+            else:
+                bad = trio.run(run_foreign, beh, out)
         except GroundTruth as ex:
             out["gt_errors"].append({"behaviour": "foreign %d" % bi, "what": str(ex)})
             continue
@@ -531,6 +584,8 @@ def main_foreign(data, out):
             continue
         out["foreign_n"] += 1
         out["foreign"] += bad
+    if background is not None:
+        background.stop()
 
 
 def main():
